@@ -184,6 +184,73 @@ def compare(job, obs, ref):
     return None
 
 
+def scenario_fingerprint(resp):
+    return json.dumps([[[obs_of(o) for o in t] for t in resp.get("results", [])],
+                       (resp.get("sched") or {}).get("fingerprint"), (resp.get("sched") or {}).get("trace"),
+                       (resp.get("sched") or {}).get("decisions")], sort_keys=True)
+
+
+def selfcheck(scns, cwd, out=None):
+    """Determinism: the same scenarios on one worker and on many must give the
+    same interleaving fingerprints, decision traces and observations."""
+    a = run_requests(scns, workers=1, timeout=900, cwd=os.path.join(cwd, "self-a"), env=SHIM_ENV)
+    b = run_requests(scns, workers=min(16, len(scns)), timeout=900, cwd=os.path.join(cwd, "self-b"), env=SHIM_ENV)
+    bad = [i for i, (x, y) in enumerate(zip(a, b)) if scenario_fingerprint(x) != scenario_fingerprint(y)]
+    if bad and out is not None:
+        out.harness_errors.append(f"determinism self-check: {len(bad)} of {len(scns)} thread scenarios differ "
+                                  f"between 1 and 16 workers (first: {bad[0]})")
+    return len(scns), len(bad)
+
+
+def minimise_scenario(scn, doc_thread, job_id, expected, cwd):
+    """Shrink a failing thread scenario: drop threads and jobs that are not
+    needed, then context switches, re-running under the forced trace / seed each
+    time; the same job must still differ from its reference entry."""
+    def fails(s):
+        r = run_requests([s], workers=1, timeout=900, cwd=cwd, env=SHIM_ENV)[0]
+        for t, results in zip(s["threads"], r.get("results", [])):
+            for j, o in zip(t, results):
+                if j["id"] == job_id and obs_of(o) != expected:
+                    return True
+        return False
+
+    base = dict(scn, sched={k: v for k, v in (scn.get("sched") or {}).items() if k != "forced"} or None)
+    cur = base
+    budget = 25
+    changed = True
+    while changed and budget > 0:
+        changed = False
+        for t in range(len(cur["threads"])):
+            if len(cur["threads"]) <= 2:
+                break
+            cand = dict(cur, threads=cur["threads"][:t] + cur["threads"][t + 1:])
+            if not any(j["id"] == job_id for th in cand["threads"] for j in th):
+                continue
+            budget -= 1
+            if fails(cand):
+                cur, changed = cand, True
+                break
+            if budget <= 0:
+                break
+        if changed:
+            continue
+        for t in range(len(cur["threads"])):
+            for k in range(len(cur["threads"][t])):
+                if len(cur["threads"][t]) <= 1 or cur["threads"][t][k]["id"] == job_id:
+                    continue
+                th = cur["threads"][t][:k] + cur["threads"][t][k + 1:]
+                cand = dict(cur, threads=cur["threads"][:t] + [th] + cur["threads"][t + 1:])
+                budget -= 1
+                if fails(cand):
+                    cur, changed = cand, True
+                    break
+                if budget <= 0:
+                    break
+            if changed or budget <= 0:
+                break
+    return cur if cur is not base else None
+
+
 # ---------------------------------------------------------------- the check
 
 def run(tier, seed):
@@ -195,6 +262,7 @@ def run(tier, seed):
     stats = {"generations": 0, "history_scenarios": 0, "thread_scenarios": 0, "process_runs": 0, "free_running": 0,
              "switches": 0, "yield_events": 0, "mismatches": 0, "jobs_under_worklist_perturbation": 0}
     fingerprints = set()
+    minimised = [0]
     labels = {}
     samples = []
     try:
@@ -244,6 +312,16 @@ def run(tier, seed):
                                "job_id": j["id"], "expected": obs_of(ref), "observed": obs_of(r)}
                         if resp.get("sched"):
                             doc["scenario"]["sched"] = dict(scn.get("sched") or {}, forced=resp["sched"]["trace"])
+                            from common import match_known
+                            if minimised[0] < 3 and match_known("C11", sig, out.known) is None and \
+                                    all(s0 != sig for s0, _ in out.violations):
+                                minimised[0] += 1
+                                m = minimise_scenario(scn, t, j["id"], obs_of(ref), os.path.join(cwd, "min"))
+                                if m is not None:
+                                    doc["original_scenario"] = doc["scenario"]
+                                    doc["scenario"] = m
+                                    doc["thread"] = next(i for i, th in enumerate(m["threads"])
+                                                         if any(x["id"] == j["id"] for x in th))
                         out.violation(sig, doc)
             s = resp.get("sched")
             if s:
@@ -318,6 +396,9 @@ def run(tier, seed):
         for s, r in zip(scns, res):
             stats["thread_scenarios"] += 1
             check_results(s, r, "threads")
+        n_self, bad_self = selfcheck(scns[:6 if quick else 60], cwd, out)
+        stats["determinism_selfcheck"] = {"scenarios_run_twice": n_self, "differing": bad_self}
+        log(f"[C11] determinism self-check: {n_self} scenarios on 1 vs 16 workers, {bad_self} differ")
         samples.append({"kind": "threads", "threads": [[j["id"] for j in t] for t in scns[0]["threads"]],
                         "sched": scns[0]["sched"], "interleaving_fingerprint": (res[0].get("sched") or {}).get("fingerprint")})
         log(f"[C11] thread scenarios done: {stats['generations']} generations, {stats['mismatches']} mismatches")
@@ -428,13 +509,12 @@ def replay(doc):
                 log("[C11] forced trace diverged (" + r["sched"]["forced_mismatch"] + "); re-running by seed")
                 scn2 = dict(scn, sched={k: v for k, v in scn["sched"].items() if k != "forced"})
                 r = run_requests([scn2], workers=1, timeout=900, cwd=scratch, env=SHIM_ENV)[0]
-            try:
-                got = r["results"][doc["thread"]]
-                for j, o in zip(scn["threads"][doc["thread"]], got):
+            if "results" not in r:
+                return r.get("kind") in ("crash", "timeout"), r
+            for th, got in zip(scn["threads"], r["results"]):
+                for j, o in zip(th, got):
                     if j["id"] == doc["job_id"] and obs_of(o) != doc["expected"]:
                         return True, obs_of(o)
-            except (KeyError, IndexError):
-                return r.get("kind") in ("crash", "timeout"), r
             return False, r
         if kind == "process":
             work = os.path.join(scratch, "w")
